@@ -74,10 +74,15 @@ def render(case, d, seed):
             return SVC[case["headflavour"]]
         return "DDecoTrio" if case["mid"] == "svc" else "DDeco"
 
+    # any element - pool, decorator, service - may be a falsy object (an empty group, say)
+    falsy = {e: rnd.random() < 0.35 for e in elems}
+
     def kw(e):
         k = {"name": e}
         if fails == e:
             k["fail_after"] = 3
+        if falsy.get(e):
+            k["falsy"] = True
         return k
 
     if kind in ("yaml", "badext"):
